@@ -8,6 +8,7 @@ import (
 	"strings"
 	"testing"
 	"testing/synctest"
+	"time"
 
 	"github.com/metal-toolbox/auditevent"
 	"github.com/prometheus/client_golang/prometheus"
@@ -152,6 +153,11 @@ func oneC05obs(t *testing.T, x Exp, pid string, order string, out *c05obs) (msg 
 				if len(rec.ptrs) != 1 {
 					fail("blocked on the hand-off with %d events written, want 1", len(rec.ptrs))
 				}
+				time.Sleep(6 * time.Hour) // the receiver is VERY late; the login must still be waiting for it
+				synctest.Wait()
+				if returned {
+					fail("the call gave up (err=%v) after waiting for the correlator although its context was never cancelled", ret)
+				}
 			}
 			startReceiver()
 			synctest.Wait()
@@ -180,6 +186,12 @@ func oneC05obs(t *testing.T, x Exp, pid string, order string, out *c05obs) (msg 
 			synctest.Wait()
 			if x.Login && returned {
 				fail("the call returned (err=%v) although nobody received the login", ret)
+			}
+			// the correlator may be busy for a long time (slow output, stalled disk): waiting is not cancellation
+			time.Sleep(6 * time.Hour)
+			synctest.Wait()
+			if x.Login && returned {
+				fail("the call gave up (err=%v) after waiting for the correlator although its context was never cancelled", ret)
 			}
 			cancel()
 			synctest.Wait()
